@@ -7,6 +7,7 @@ CONSTANTS
   MaxTotal = 3
   QCap = 1
   WireCap = 1
+  CutBetween = TRUE
   Cuts = {1}
 INVARIANTS TypeOK InOrderWhole Assembly NoLoss
 PROPERTIES DeliverStep
